@@ -1448,11 +1448,18 @@ func (P *Prog) checkIssuesBuiltByContext(r *Result) {
 		case *ssa.Phi:
 			res := ""
 			for _, e := range x.Edges {
+				// (`var issue *ZogIssue` filled on the failing branches and added under `issue != nil`: the nil edge adds nothing)
+				if isNilConst(e) {
+					continue
+				}
 				o := origin(e, d+1)
 				if o != "ctor" {
 					return o
 				}
 				res = o
+			}
+			if res == "" {
+				return "nil"
 			}
 			return res
 		case *ssa.Call:
